@@ -271,3 +271,17 @@ def run(ctx):
             ctx.violation("stats-oracle", {"what": kind, "input": l}, True)
     if div and not any(v["kind"] not in ("record-count-mismatch", "sanitizer") for v in ctx.violations):
         pass  # correspondence broke but the oracle found nothing: reported as broken obligation by finish()
+    # ---- accounting on full GenModel runs (hrun wraps stats_take at link time): the counters the runtime books per thread must
+    # equal the events that happened on that thread (rollbacks, undone events, silent re-executions, checkpoints, anti-messages),
+    # on single-rank scheduled runs and on two-rank runs with the adversarial peer (remote and early anti-messages)
+    from props import runlib
+    keep = dict(ctx.coverage)
+    aagg = runlib.run_matrix(ctx, "counters booked by stats_take vs events of the trace (scheduled full runs)", 16, 300,
+                             oracle_keys=("s_stats_mismatch",), threads=(1, 2, 3, 4))
+    pagg = runlib.peer_matrix(ctx, 16, 300, salt=20, extra_oracles=("s_stats_mismatch",))
+    extra_cov = {"full_run_accounting": {"runs": (aagg.runs if aagg else 0), "rollbacks": (aagg.tot.get("rollbacks", 0) if aagg else 0),
+                                         "silent": (aagg.tot.get("silent", 0) if aagg else 0)},
+                 "two_rank_accounting(adversarial peer)": ctx.coverage.get("peer_mode")}
+    ctx.coverage.clear()
+    ctx.coverage.update(keep)
+    ctx.coverage.update(extra_cov)
